@@ -19,8 +19,8 @@ from vlib import coq_str, coq_list, canon_hash
 PHYS = ["dx", "dy", "dz"]
 LOG = ["dx1", "dx2", "dx3"]
 COQ_OP = {"dx": "Dx", "dy": "Dy", "dz": "Dz", "dx1": "D1", "dx2": "D2", "dx3": "D3"}
-SCAL_NAMES = ["u", "v", "p", "phi", "f1", "T"]
-VEC_NAMES = ["w", "b", "E", "A2"]
+SCAL_NAMES = ["u", "v", "p", "phi", "f1", "T", "u_h", "p_h"]
+VEC_NAMES = ["w", "b", "E", "A2", "B_h"]
 BAD_SCAL = ["u_x", "u_xy", "w_0", "u_x1", "w_1_y", "v_y", "u_xx"]   # names containing the separator
 CONSTS = ["alpha", "kappa", "c0"]
 SYMS = ["t", "eps"]
@@ -28,6 +28,14 @@ FUNCS1 = ["sin", "cos", "exp", "log", "Abs", "tan"]
 
 
 # ================================================================== generation
+def has_terminal(t):
+    if t["k"] in ("chain", "vec"):
+        return True
+    kids_ = t.get("args", []) + t.get("items", []) + ([t["b"], t["e"]] if t["k"] == "pow" else []) + \
+        [a for r in t.get("rows", []) for a in r]
+    return any(has_terminal(a) for a in kids_)
+
+
 class Gen:
     def __init__(self, rng, tier):
         self.rng = rng
@@ -76,48 +84,78 @@ class Gen:
         return {"k": "chain", "ops": self.ops(dim, kind, self.order()), "atom": self.atom(funcs, dim),
                 "eval": r.random() < 0.5}
 
+    def chain_leaf(self, st):
+        r = self.rng
+        if st["pool"]:
+            return st["pool"].pop()
+        for _ in range(40):      # a fresh chain whose (atom, multi-index) is not yet used in this kernel
+            c = self.chain(st["funcs"], st["dim"], r.choice(st["kinds"]))
+            key = (json.dumps(c["atom"], sort_keys=True), tuple(sorted(c["ops"])))
+            if key not in st["seen"]:
+                st["seen"].add(key)
+                return c
+        return None
+
     def leaf(self, st):
+        """Numbers are positive (signs only enter as the factor -1 of a term that contains a chain), so that no
+        sub-kernel can cancel to 0 and no log(0), 0**-1, ... (zoo / nan) is ever generated."""
         r = self.rng
         x = r.random()
         if x < 0.72:
-            c = st["pool"].pop() if st["pool"] else None
+            c = self.chain_leaf(st)
             if c is not None:
                 return c
         if x < 0.82:
-            return {"k": "num", "v": str(r.choice([2, 3, -1, 5, 7]))}
+            return {"k": "num", "v": str(r.choice([2, 3, 5, 7]))}
         if x < 0.86:
-            return {"k": "rat", "p": r.choice([1, -1, 3]), "q": r.choice([2, 4])}
+            return {"k": "rat", "p": r.choice([1, 3]), "q": r.choice([2, 4])}
         if x < 0.94:
             return {"k": "const", "name": r.choice(CONSTS)}
         return {"k": "sym", "name": r.choice(SYMS)}
 
-    def scalar(self, st, depth):
-        """A scalar kernel.  st['feat'] says which constructions beyond + * ^const are allowed."""
+    def with_chain(self, st, t):
+        """`t` if it contains a function / chain, else t + (a chain): never a pure number."""
+        if has_terminal(t):
+            return t
+        c = self.chain_leaf(st)
+        if c is None:
+            c = {"k": "chain", "ops": [], "atom": self.atom(st["funcs"], st["dim"]), "eval": False}
+        return {"k": "add", "args": [t, c]} if t["k"] != "num" or self.rng.random() < 0.5 else c
+
+    def scalar(self, st, depth, nosign=False):
+        """A scalar kernel.  st['feat'] says which constructions beyond + * ^const are allowed.
+        Inside function arguments, bases and exponents no term gets a negative coefficient (nosign): sympy pulls
+        signs out of odd / even functions and even powers (tan(a - b) vs -tan(b - a)) by a rule that, on a tie,
+        depends on the sort order of the NAMES, so such kernels have no name-independent tree to compare with."""
         r = self.rng
         if depth <= 0 or r.random() < 0.18:
             return self.leaf(st)
         feat = st["feat"]
         x = r.random()
         if x < 0.36:
-            return {"k": "add", "args": [self.scalar(st, depth - 1) for _ in range(r.randint(2, 4))]}
+            args = [self.scalar(st, depth - 1, nosign) for _ in range(r.randint(2, 4))]
+            if not nosign and r.random() < 0.3:
+                i = r.randrange(len(args))
+                args[i] = {"k": "mul", "args": [{"k": "num", "v": "-1"}, self.with_chain(st, args[i])]}
+            return {"k": "add", "args": args}
         if x < 0.70:
-            return {"k": "mul", "args": [self.scalar(st, depth - 1) for _ in range(r.randint(2, 3))]}
+            return {"k": "mul", "args": [self.scalar(st, depth - 1, nosign) for _ in range(r.randint(2, 3))]}
         if x < 0.84 or not feat:
             e = r.choice([{"k": "num", "v": "2"}, {"k": "num", "v": "3"}, {"k": "num", "v": "-1"},
                           {"k": "rat", "p": 1, "q": 2}, {"k": "num", "v": "-2"}, {"k": "const", "name": "alpha"}])
             if "powexp" in feat and r.random() < 0.5:
-                e = self.scalar(st, min(depth - 1, 1))
-            b = self.scalar(st, depth - 1)
+                e = self.scalar(st, min(depth - 1, 1), True)
+            b = self.with_chain(st, self.scalar(st, depth - 1, True))
             if "powexp" in feat and r.random() < 0.3:
                 b = {"k": "num", "v": "2"}
             return {"k": "pow", "b": b, "e": e}
         if "fn" in feat:
-            return {"k": "fn", "name": r.choice(FUNCS1), "args": [self.scalar(st, depth - 1)]}
+            return {"k": "fn", "name": r.choice(FUNCS1), "args": [self.with_chain(st, self.scalar(st, depth - 1, True))]}
         return self.leaf(st)
 
-    def distinct_chains(self, funcs, dim, n, kinds):
+    def distinct_chains(self, funcs, dim, n, kinds, seen):
         """n chains with pairwise different (atom, multi-index), each in a random order of differentiation."""
-        seen, out = set(), []
+        out = []
         for _ in range(8 * n):
             c = self.chain(funcs, dim, self.rng.choice(kinds))
             key = (json.dumps(c["atom"], sort_keys=True), tuple(sorted(c["ops"])))
@@ -137,8 +175,9 @@ class Gen:
                 "vector": ["fn", "matrix"], "pyseq": []}[stream]
         kinds = ["phys", "log"] if stream != "mixed" else ["phys", "log", "mixed", "mixed"]
         depth = r.randint(1, 3) if self.maxorder == 6 else r.randint(1, 4)
-        pool = self.distinct_chains(funcs, dim, r.randint(2, 7), kinds)
-        st = {"pool": list(pool), "feat": feat}
+        seen = set()
+        pool = self.distinct_chains(funcs, dim, r.randint(2, 7), kinds, seen)
+        st = {"pool": list(pool), "feat": feat, "funcs": funcs, "dim": dim, "kinds": kinds, "seen": seen}
         shape = r.random()
         if stream == "pyseq":
             kernel = {"k": "seq", "py": r.choice(["list", "tuple"]),
@@ -302,8 +341,14 @@ def res_enum(r):
     return "ok" if "ok" in r else "err:" + r["err"]
 
 
-def checks_of(ci, res):
-    """Returns (definitions, [(label, coq boolean, printable model term)]) for one case."""
+def B(x):
+    return "true" if x else "false"
+
+
+def checks_of(ci, res, var):
+    """Returns (definitions, [(label, coq boolean, printable model term)]) for one case.
+    var = {"pe","ea","vq"}: which repairs the source of /repo contains (all False = the original code)."""
+    pe, ea, vq = B(var.get("pe")), B(var.get("ea")), B(var.get("vq"))
     kname = "k_%d" % ci
     defs = "Definition %s : expr := %s.\n" % (kname, coq_expr(res["kernel"]))
     out = []
@@ -321,27 +366,27 @@ def checks_of(ci, res):
     s = res["symbolic"]
     if "ok" in s:
         if not res.get("_collision"):
-            out.append(("symbolic", "ac_eqb (symbolic %s) %s" % (kname, coq_expr(s["ok"])), "symbolic %s" % kname))
+            out.append(("symbolic", "ac_eqb (symbolic_g %s %s) %s" % (pe, kname, coq_expr(s["ok"])), "symbolic_g %s %s" % (pe, kname)))
     else:
-        out.append(("symbolic", "false", "symbolic %s" % kname))
+        out.append(("symbolic", "false", "symbolic_g %s %s" % (pe, kname)))
     f = res["find"]
     if "ok" in f:
-        out.append(("find", "list_beq chain_beq (find_pd %s) %s" % (kname, coq_list([coq_chain(c) for c in f["ok"]])),
-                    "find_pd %s" % kname))
+        out.append(("find", "list_beq chain_beq (find_pd_g %s %s) %s" % (ea, kname, coq_list([coq_chain(c) for c in f["ok"]])),
+                    "find_pd_g %s %s" % (ea, kname)))
     else:
-        out.append(("find", "false", "find_pd %s" % kname))
-    for key, fn in (("max_phys", "get_max_phys"), ("max_log", "get_max_log")):
+        out.append(("find", "false", "find_pd_g %s %s" % (ea, kname)))
+    for key, fn in (("max_phys", "get_max_phys_g %s %s" % (ea, vq)), ("max_log", "get_max_log_g %s %s" % (ea, vq))):
         r = res[key]
         want = "(Some %s)" % coq_idx3(r["ok"]) if "ok" in r else ("None" if r["err"] == "AttributeError" else None)
         term = "%s %s None" % (fn, kname)
         out.append((key, "oidx3_beq (%s) %s" % (term, want) if want else "false", term))
     for j, p in enumerate(res["per"]):
         q = coq_query(p["q"])
-        for key, fn in (("max_phys", "get_max_phys"), ("max_log", "get_max_log")):
+        for key, fn in (("max_phys", "get_max_phys_g %s %s" % (ea, vq)), ("max_log", "get_max_log_g %s %s" % (ea, vq))):
             r = p[key]
             term = "%s %s (Some %s)" % (fn, kname, q)
             out.append(("%s:%d" % (key, j), "oidx3_beq (%s) (Some %s)" % (term, coq_idx3(r["ok"])) if "ok" in r else "false", term))
-        for key, fn in (("idx_phys", "index_atom_phys"), ("idx_log", "index_atom_log")):
+        for key, fn in (("idx_phys", "index_atom_phys_g %s %s" % (ea, vq)), ("idx_log", "index_atom_log_g %s %s" % (ea, vq))):
             r = p[key]
             term = "%s %s %s" % (fn, kname, q)
             out.append(("%s:%d" % (key, j), "list_beq idx3_beq (%s) %s" % (term, coq_list([coq_idx3(v) for v in r["ok"]]))
@@ -350,12 +395,27 @@ def checks_of(ci, res):
 
 
 # ================================================================== the property itself, on the implementation's outputs
-def cause_of_pair(c1, c2):
+def pick_cause(kind, causes, known):
+    """Each element of `causes` alone suffices to produce the failure.  The failure is attributed to the first one
+    that is a recorded finding, otherwise to the first one (so that it is reported)."""
+    causes = causes or ["none"]
+    if known:
+        for c in causes:
+            if known({"kind": kind, "cause": c}):
+                return c
+    return causes[0]
+
+
+def causes_of_pair(c1, c2, collision):
+    out = []
     if is_mixed(c1["ops"]) or is_mixed(c2["ops"]):
-        return "mixed-chain"
-    if "_" in c1["atom"]["name"] or "_" in c2["atom"]["name"]:
-        return "unhygienic-name"
-    return "none"
+        out.append("mixed-chain")
+    # only a COLLISION of two different identities can come from the spelling of the function names: one name is
+    # the other one followed by the separator and more (u_x / u, w_0 / w)
+    n1, n2 = c1["atom"]["name"], c2["atom"]["name"]
+    if collision and n1 != n2 and (n1.startswith(n2 + "_") or n2.startswith(n1 + "_")):
+        out.append("unhygienic-name")
+    return out
 
 
 def exponent_has_terminal(t, inside=False):
@@ -376,8 +436,9 @@ def q_matches(q, atom):
     return (q["t"], q["name"], q.get("i", -1)) == (atom["t"], atom["name"], atom.get("i", -1))
 
 
-def oracle(case, res):
-    """List of failures {"sig":{...}, "msg":str, "focus":{...}} of C17 on one case's outputs."""
+def oracle(case, res, known=None):
+    """List of failures {"sig":{...}, "msg":str, "focus":{...}} of C17 on one case's outputs.
+    `known(sig)` tells whether a signature is a recorded finding (only used to choose between several sufficient causes)."""
     bad = []
     # ---- O1: a chain's symbol <-> (component, multi-index)
     entries = []
@@ -404,7 +465,7 @@ def oracle(case, res):
             msg = ("two different (component, multi-index) pairs get the same symbol %r: %s and %s" % (n1, show_chain(c1), show_chain(c2))
                    if same_nm else
                    "the same (component, multi-index) gets two symbols %r / %r: %s and %s" % (n1, n2, show_chain(c1), show_chain(c2)))
-            bad.append({"sig": {"kind": kind, "cause": cause_of_pair(c1, c2)}, "msg": msg,
+            bad.append({"sig": {"kind": kind, "cause": pick_cause(kind, causes_of_pair(c1, c2, same_nm), known)}, "msg": msg,
                         "focus": {"pair": [strip(c1), strip(c2)]}})
     # ---- O2: SymbolicExpr(k) is the homomorphic extension of chain -> symbol, nothing terminal is left
     s = res["subst"]
@@ -414,13 +475,15 @@ def oracle(case, res):
     elif not s["ok"]["equal"] or s["ok"]["residual"]:
         cause = "pow-exponent" if exponent_has_terminal(res["kernel"]) else "none"
         bad.append({"sig": {"kind": "symbolic-not-homomorphic", "cause": cause},
-                    "msg": "SymbolicExpr(kernel) = %s but substituting every chain by its symbol gives %s (terminal nodes left: %s)"
-                           % (s["ok"]["got"], s["ok"]["want"], s["ok"]["residual"]), "focus": {}})
+                    "msg": "SymbolicExpr(kernel) is not the result of substituting every chain by its symbol (terminal nodes left "
+                           "in the result: %s)" % (s["ok"]["residual"],), "focus": {}, "got": s["ok"]["got"], "want": s["ok"]["want"]})
     # ---- O3: reported maximal orders == true maxima (independent traversal done by the runner on the sympy tree)
     chains = [c for c in res["true_chains"] if c["ops"]]
-    ctxs = {}
+    ctxs = {}     # chain -> enclosing non-entered constructions, outermost first (shortest list if it occurs twice)
     for t, ctx in tree_chains(res["kernel"]):
-        ctxs.setdefault(json.dumps([t["ops"], t["atom"]], sort_keys=True), set()).update(ctx or ())
+        key = json.dumps([t["ops"], t["atom"]], sort_keys=True)
+        if key not in ctxs or len(ctx) < len(ctxs[key]):
+            ctxs[key] = list(ctx)
     tree_ids = sorted(json.dumps([t["ops"], t["atom"]], sort_keys=True) for t, _ in tree_chains(res["kernel"]))
     walk_ids = sorted(json.dumps([c["ops"], c["atom"]], sort_keys=True) for c in chains)
     if tree_ids != walk_ids:
@@ -436,20 +499,24 @@ def oracle(case, res):
             if rep["ok"] == true:
                 continue
             under = any(a < b for a, b in zip(rep["ok"], true))
-            blockers = set()
+            qs = "" if q is None else ", F=%s" % show_q(q)
+            msg = ("get_max_%spartial_derivatives(kernel%s) = %s but the kernel contains derivative chains of orders %s"
+                   % ("logical_" if fam == "logical" else "", qs, rep["ok"], true))
+            if not under:
+                bad.append({"sig": {"kind": "max-over-report", "cause": "none"}, "msg": msg, "focus": {"q": q, "family": fam}})
+                continue
+            # why is a chain that exceeds the report not seen?  One primary cause per offending chain: the query is a
+            # VectorFunction / the chain mixes physical and logical operators / the outermost construction around it
+            # that the traversal does not enter.
+            causes = set()
             for c in mine:
                 if any(c["ops"].count(o) > r for o, r in zip(ops3, rep["ok"])):
-                    b = set(ctxs.get(json.dumps([c["ops"], c["atom"]], sort_keys=True), ()))
-                    if is_mixed(c["ops"]):
-                        b.add("mixed-chain")
-                    if q is not None and q["t"] == "v":
-                        b.add("vector-query")
-                    blockers |= b or {"none"}
-            bad.append({"sig": {"kind": "max-under-report" if under else "max-over-report",
-                                "cause": "+".join(sorted(blockers)) if under else "none"},
-                        "msg": "get_max_%spartial_derivatives(kernel%s) = %s but the kernel contains derivative chains of orders %s"
-                               % ("logical_" if fam == "logical" else "", "" if q is None else ", F=%s" % show_q(q), rep["ok"], true),
-                        "focus": {"q": q, "family": fam}})
+                    ctx = ctxs.get(json.dumps([c["ops"], c["atom"]], sort_keys=True), [])
+                    suff = (["vector-query"] if q is not None and q["t"] == "v" else []) + \
+                           (["mixed-chain"] if is_mixed(c["ops"]) else []) + list(ctx)
+                    causes.add(pick_cause("max-under-report", suff, known))
+            for cz in sorted(causes):
+                bad.append({"sig": {"kind": "max-under-report", "cause": cz}, "msg": msg, "focus": {"q": q, "family": fam}})
     return bad
 
 
@@ -638,10 +705,11 @@ def case_size(case):
     return size(case["kernel"]) + sum(size(c) for c in case.get("name_chains", [])) + len(case["funcs"]) + case["dim"]
 
 
-def shrink(run, case, accept, rounds=14, width=48):
+def shrink(run, case, accept, known=None, rounds=14, width=48):
     """Greedy: all one-step reductions are run in one batch of the real implementation; the smallest one that
     still fails in the accepted way is kept."""
     best = copy.deepcopy(case)
+    best.pop("note", None)
     for _ in range(rounds):
         cands = sorted(case_reductions(best), key=case_size)
         cands = [c for c in cands if case_size(c) < case_size(best)][:width]
@@ -652,7 +720,7 @@ def shrink(run, case, accept, rounds=14, width=48):
             break
         nxt = None
         for c, r in zip(cands, out["results"]):
-            if "kernel" in r and any(accept(f) for f in oracle(c, r)):
+            if "kernel" in r and any(accept(f) for f in oracle(c, r, known)):
                 nxt = c
                 break
         if nxt is None:
@@ -665,7 +733,7 @@ def shrink(run, case, accept, rounds=14, width=48):
 def main(run, replay=None):
     rng = run.rng
     quick = run.tier == "quick"
-    ncases = 320 if quick else 4000
+    ncases = 480 if quick else 4000
     proof_ok = run.coq_props()
 
     root = run.work.parents[1]
@@ -684,6 +752,7 @@ def main(run, replay=None):
     nb = 16
     outs = run.impl_parallel("C17_impl", [{"cases": cases[i::nb]} for i in range(nb) if cases[i::nb]])
     results = [None] * len(cases)
+    variant = None
     for bi, (res, log) in enumerate(outs):
         idxs = list(range(len(cases)))[bi::nb]
         if res is None:
@@ -692,10 +761,19 @@ def main(run, replay=None):
             continue
         for i, r in zip(idxs, res["results"]):
             results[i] = r
-    usable = []
+        variant = variant or res.get("variant")
+    variant = variant or {"pe": None, "ea": None, "vq": None}
+    if any(variant.get(k) is None for k in ("pe", "ea", "vq")):
+        run.report({"kind": "source-shape"}, "the source of SymbolicExpr.eval / find_partial_derivatives / get_index_*_derivatives_atom "
+                   "has a shape the variant reader does not recognise (fail-closed; the model of the original code is used)",
+                   {"variant": variant}, found_input=False, theorem_or_case="C17 model-variant reader (tools/impl/C17_impl.py source_variant)")
+    usable, degenerate = [], []
     seen_glue = set()
     for ci, (case, res) in enumerate(zip(cases, results)):
         if res is None:
+            continue
+        if "degenerate" in res:          # the kernel evaluated to / contains zoo, nan or oo: outside the property
+            degenerate.append(ci)
             continue
         if "crash" in res or "unsupported" in res:
             key = "crash" if "crash" in res else res["unsupported"]
@@ -728,7 +806,7 @@ def main(run, replay=None):
         chunk.clear()
         defs.clear()
     for ci in usable:
-        d, checks = checks_of(ci, results[ci])
+        d, checks = checks_of(ci, results[ci], variant)
         defs.append(d)
         for lab, term, model in checks:
             chunk.append((ci, term, lab, model))
@@ -751,9 +829,11 @@ def main(run, replay=None):
                 disagree.append((ci, lab, model))
 
     # ---- the property itself on the implementation's outputs
+    def known(sig):
+        return run.match_known(sig) is not None
     fails = {}
     for ci in usable:
-        fs = oracle(cases[ci], results[ci])
+        fs = oracle(cases[ci], results[ci], known)
         if fs:
             fails[ci] = fs
     by_sig = {}
@@ -770,18 +850,15 @@ def main(run, replay=None):
             continue
         small, fin = cases[ci], f
         if run.match_known(sig) is None and not replay:
-            allowed = set(sig.get("cause", "").split("+"))
-            kind = sig["kind"]
-
-            def accept(g, kind=kind, allowed=allowed):
-                return g["sig"]["kind"] == kind and set(g["sig"].get("cause", "").split("+")) <= allowed
+            def accept(g, sig=sig):
+                return g["sig"] == sig
             base = cases[ci]
-            if kind in ("name-collision", "name-split", "name-not-symbol"):
+            if sig["kind"] in ("name-collision", "name-split", "name-not-symbol"):
                 pair = f["focus"]["pair"]
                 base = dict(base, kernel=pair[0], name_chains=pair)
-            small = shrink(run, base, accept)
+            small = shrink(run, base, accept, known)
             r, _ = run.impl("C17_impl", {"cases": [small]})
-            cand = [g for g in oracle(small, r["results"][0]) if accept(g)] if r and "kernel" in r["results"][0] else []
+            cand = [g for g in oracle(small, r["results"][0], known) if accept(g)] if r and "kernel" in r["results"][0] else []
             if cand:
                 fin = cand[0]
             else:
@@ -790,8 +867,10 @@ def main(run, replay=None):
         if fsig in reported:
             continue
         reported.add(fsig)
-        r, _ = run.impl("C17_impl", {"cases": [small]})
-        obs = r["results"][0] if r else None
+        obs = None
+        if run.match_known(fin["sig"]) is None:
+            r, _ = run.impl("C17_impl", {"cases": [small]})
+            obs = r["results"][0] if r else None
         if obs:
             obs = {k: v for k, v in obs.items() if k in ("kernel", "symbolic", "max_phys", "max_log", "per", "names", "subst")}
         if run.report(fin["sig"], "C17 fails on the implementation: " + fin["msg"], small, observed=obs,
@@ -807,7 +886,7 @@ def main(run, replay=None):
         if key in rep_dis:
             continue
         rep_dis.add(key)
-        d, _ = checks_of(ci, results[ci])
+        d, _ = checks_of(ci, results[ci], variant)
         rc, out = run.coq_eval("diag", HEADER + d + "Eval vm_compute in (%s).\n" % model)
         run.report(sig, "model and implementation disagree (%s) but the property oracle found no failing input" % lab,
                    cases[ci], observed={k: v for k, v in results[ci].items() if not k.startswith("_")},
@@ -857,6 +936,10 @@ def main(run, replay=None):
                 "contains >= 2 derivative chains with different (component, multi-index); distinct = different (dimension, kernel "
                 "as read back from sympy) after canonical JSON hashing",
         "cases": len(usable),
+        "degenerate_kernels_not_evaluated": len(degenerate),
+        "model_variant_read_from_source": {"symbolic_translates_exponent": variant.get("pe"),
+                                           "find_enters_every_subexpression": variant.get("ea"),
+                                           "vector_function_query": variant.get("vq")},
         "chains_named": nchains,
         "traces_validated_against_impl": agree,
         "model_impl_disagreements": len(disagree),
@@ -866,7 +949,8 @@ def main(run, replay=None):
         "streams": h_stream, "dimension_histogram": h_dim, "chain_order_histogram": dict(sorted(h_order.items(), key=lambda x: int(x[0]))),
         "chain_kind_histogram": h_kind, "kernel_node_histogram": h_nodes, "kernel_size_histogram": h_size,
         "outcome_histogram": h_err,
-        "samples": [cases[i] for i in usable[:3]],
+        "samples": [cases[i] for i in usable if cases[i].get("stream") == "corpus"][:1] +
+                   [cases[i] for i in usable if cases[i].get("stream") != "corpus"][:2],
         "exhaustive": False,
         "trusted_base": ["tools/impl/C17_impl.py (runner, sympy-tree reader, independent chain walk) and tools/props/C17.py "
                          "(generator, serialiser to Gallina, oracle, shrinker)",
